@@ -305,6 +305,10 @@ pub struct Model<T> {
     /// a truncating commit was rolled back and nothing has been written since: the bytes on
     /// disk are those of the undone commit
     pub undone_trunc: bool,
+    /// chain length right after a truncating commit was undone: the change records of chain
+    /// entries below it were written before that undo (finding F3: they assume bytes on disk
+    /// that the undo no longer guarantees)
+    pub stale_below: usize,
 }
 
 impl<T: Elem> Model<T> {
@@ -329,6 +333,7 @@ impl<T: Elem> Model<T> {
             truncated_since_commit: false,
             damaged: BTreeSet::new(),
             undone_trunc: false,
+            stale_below: 0,
         }
     }
     pub fn holes(&self) -> Vec<usize> {
@@ -822,6 +827,7 @@ where
                 if m.chain.len() > 1 {
                     if m.chain.pop().is_some_and(|s| s.truncating) {
                         m.undone_trunc = true;
+                        m.stale_below = m.stale_below.max(m.chain.len());
                     }
                 }
                 m.uncommitted = false;
@@ -854,6 +860,7 @@ where
                     if m.chain.len() > 1 {
                         if m.chain.pop().is_some_and(|s| s.truncating) {
                             m.undone_trunc = true;
+                            m.stale_below = m.stale_below.max(m.chain.len());
                         }
                     }
                 }
@@ -896,7 +903,9 @@ where
             && m.chain[m.chain.len() - (n_undo - 1)..]
                 .iter()
                 .any(|c| c.truncating);
-        if m.undone_trunc || path_trunc {
+        // the rollback consumes the records of chain entries L-n_undo .. L-1
+        let uses_stale = n_undo >= 1 && m.chain.len() - n_undo.min(m.chain.len()) < m.stale_below;
+        if m.undone_trunc || path_trunc || uses_stale {
             s.push_str("chain_over_trunc;");
         }
         let stored = v.stored_len();
@@ -1298,6 +1307,7 @@ where
                 if self.model.chain.len() > 1 {
                     if self.model.chain.pop().is_some_and(|s| s.truncating) {
                         self.model.undone_trunc = true;
+                        self.model.stale_below = self.model.stale_below.max(self.model.chain.len());
                     }
                 }
                 self.model.uncommitted = false;
@@ -1537,7 +1547,7 @@ where
                 m.uncommitted,
                 m.tainted,
                 m.commits_done,
-                (m.stored_uncertain, m.truncated_since_commit, m.undone_trunc, &m.damaged)
+                (m.stored_uncertain, m.truncated_since_commit, m.undone_trunc, m.stale_below, &m.damaged)
             )
             .as_bytes(),
         );
